@@ -283,8 +283,31 @@ UntilDtWhy(r) ==
            ELSE IF SinceWhy(r) # "" THEN SinceWhy(r)
            ELSE DurWhy(r, T)
 
+\* ---- Timestamp +/- span / duration (scope "beyond") ---------------------------------------------------
+TsPlus(t, T) == LET e == DateTimeAddNs(t, T) IN IF e # <<>> /\ InTsRange(e) THEN e ELSE <<>>
+TsResIs(x, e) == IF x.st = "panic" THEN FALSE
+                 ELSE IF e = <<>> THEN x.st = "err"
+                 ELSE x.st = "ok" /\ ApiSignsOk(x.rsec, x.rns) /\ InstOfApi(x.rsec, x.rns) = e
+TsAddWhy(r) ==
+  LET t == InstOfApi(r.sec, r.ns)
+      cal == SpanHasCalendar(r.span)
+      T == SpanTimeNs(r.span)
+      D == BNanosOfApi(r.dsec, r.dns)
+      ea == TsPlus(t, T)  es == TsPlus(t, BNeg(T))
+      da == TsPlus(t, D)  ds == TsPlus(t, BNeg(D))
+      Clamp(e, up) == IF e # <<>> THEN e ELSE IF up THEN TsMax ELSE TsMin
+  IN IF cal THEN (IF r.add.st = "err" /\ r.sub.st = "err" /\ r.sat.st = "err" THEN "" ELSE "Timestamp arithmetic accepted a span with units above hours")
+     ELSE IF ~TsResIs(r.add, ea) THEN "Timestamp::checked_add(span)"
+     ELSE IF ~TsResIs(r.sub, es) THEN "Timestamp::checked_sub(span)"
+     ELSE IF ~TsResIs(r.sat, Clamp(ea, T.s > 0)) THEN "Timestamp::saturating_add(span)"
+     ELSE IF ~TsResIs(r.dadd, da) THEN "Timestamp::checked_add(duration)"
+     ELSE IF ~TsResIs(r.dsub, ds) THEN "Timestamp::checked_sub(duration)"
+     ELSE IF ~TsResIs(r.dsat, Clamp(da, D.s > 0)) THEN "Timestamp::saturating_add(duration)"
+     ELSE ""
+
 Why(r) ==
   CASE r.op = "date_add"   -> DateAddWhy(r)
+    [] r.op = "ts_add"     -> TsAddWhy(r)
     [] r.op = "dt_add"     -> DtAddWhy(r)
     [] r.op = "dur_add"    -> DurAddWhy(r)
     [] r.op = "time_add"   -> TimeAddWhy(r)
